@@ -3,6 +3,8 @@ CONSTANTS
   KeyIds = {1, 2, 3, 4, 6}
   ValIds = {1, 7}
   Depth = 30
+  Seed = 0
+  Runs = 0
 VIEW MptView
 INVARIANTS GenInv
 CHECK_DEADLOCK FALSE
